@@ -312,7 +312,8 @@ def fold_plan(schedule):
 
 
 def budget_for(groups, n_readings, max_dt):
-    return int(sum(10 * (abs(b - a) / max_dt + 2) for a, b in groups)) + n_readings + 8
+    # generous: a faithful implementation may take smaller steps than necessary; only a runaway loop exhausts this
+    return min(5_000_000, int(sum(200 * (abs(b - a) / max_dt + 2) for a, b in groups)) + n_readings + 8)
 
 
 # --------------------------------------------------------------------------- legs
